@@ -83,7 +83,7 @@ Lemma AInv_move d g L w' : AInv d g L -> Inv_n w' ->
 Proof.
   destruct d as [w regs]. simpl. intros [Hn Hi Ha Hqc Hqd Hqa Hr Ht] Hn' R Ec Ers Eq Eo Er Ht'. simpl in *.
   pose proof (inv_nb _ Hn') as [N1 N2].
-  destruct Hi as [_ Hlo _ Hcl Hd [Pq [Po Pr]] HL].
+  destruct Hi as [_ Hlo _ Hcl Hd [Pq [Po Pr]] HL Hsd].
   assert (Hrs : w_rr_start w <= w_cursor w) by apply Hn.
   assert (Rq : ragree header_size (w_rr_start w) (length (w_buf w)) (w_buf w) (w_buf w'))
     by (eapply ragree_le; eauto).
@@ -99,6 +99,7 @@ Proof.
       * destruct (w_mro w) as [pr|] eqn:E; simpl; auto. eapply (prior_ok_transfer _ _ _ _ L); [exact Hcl|exact R|apply HL; auto|auto].
       * destruct (w_mrn w) as [pr|] eqn:E; simpl; auto. eapply (prior_ok_transfer _ _ _ _ L); [exact Hcl|exact R|apply HL; auto|auto].
     + rewrite Eq, Eo, Er. exact HL.
+    + rewrite Ec. eapply (sdec_transfer _ _ _ _ L); eauto. lia.
   - destruct Ha as [A1 [A2 A3]]. unfold anch3. rewrite Ec, Eq, Eo, Er.
     repeat split; eapply (anch_transfer _ _ _ _ L); eauto.
   - rewrite Ers. eapply closed_rehole; [eapply closed_transfer; eauto|]. rewrite <- Ers. destruct Hn'. lia.
@@ -428,7 +429,7 @@ Proof.
   destruct (write_unhinted_name n (d_w d)) as [[pr w1]|[e w1]|]; simpl in P1; cbn [bind] in *.
   3:{ exact P1. }
   2:{ simpl in G |- *. exists L. apply AInv_obs; auto. }
-  destruct P1 as [W [Hsz [_ [L1 [G1 [Hi1 HpL]]]]]].
+  destruct P1 as [W [Hsz [_ [L1 [G1 [Hi1 [HpL HT1]]]]]]].
   pose proof W as [X [Sd _]].
   pose proof (anch_new _ _ _ _ _ _ L1 W HpL) as Apr.
   rewrite <- (x_len _ _ _ X) in Hi1.
@@ -444,11 +445,11 @@ Proof.
   destruct E1 as [Ec1 [Eb1 [Et1 Ea1]]].
   clearbody w1'.
   destruct (try_push_u16 qt w1') as [[u2 w2]|[e w2]|] eqn:E2; cbn [bind] in *.
-  3:{ destruct Hi1' as [[N1 N2] _ _ _ _ _ _]. eapply try_push_no_panic; eauto. }
+  3:{ destruct Hi1' as [[N1 N2] _ _ _ _ _ _ _]. eapply try_push_no_panic; eauto. }
   2:{ simpl in G |- *. exists L. apply AInv_obs; auto. }
   destruct (push_step _ _ _ _ _ _ _ _ _ None [] E2 Hi1' A1 I) as [Hi2 [A2 [_ [Hc2 [X2 Q2]]]]].
   destruct (try_push_u16 qc w2) as [[u3 w3]|[e w3]|] eqn:E3; cbn [bind] in *.
-  3:{ destruct Hi2 as [[N1 N2] _ _ _ _ _ _]. eapply try_push_no_panic; eauto. }
+  3:{ destruct Hi2 as [[N1 N2] _ _ _ _ _ _ _]. eapply try_push_no_panic; eauto. }
   2:{ simpl in G |- *. exists L. apply AInv_obs; auto. }
   destruct (push_step _ _ _ _ _ _ _ _ _ None [] E3 Hi2 A2 I) as [Hi3 [A3 [_ [Hc3 [X3 Q3]]]]].
   simpl in G |- *.
@@ -529,6 +530,13 @@ Proof.
   eauto.
 Qed.
 
+Lemma sdec_narrow b c (L : nat -> Prop) c0 (L0 : nat -> Prop) : sdec b c L -> decodable b c0 L0 ->
+  (forall s, L0 s -> L s) -> sdec b c0 L0.
+Proof.
+  intros D D0 Hs s H0. destruct (D0 s H0) as [ls0 Hn0]. destruct (D s (Hs s H0)) as [ls [e [Hn Hd]]].
+  rewrite (name_at_fun _ _ _ _ Hn0 _ _ Hn) in Hn0. eauto.
+Qed.
+
 Lemma AInv_clear d g L : AInv d g L ->
   AInv (mkD (clear_rrs (d_w d)) (d_regs d))
        (mkGn (g_q g) None None (map (map (fun _ => None)) (g_regs g))) (Lq L (w_rr_start (d_w d))).
@@ -553,6 +561,7 @@ Proof.
       split; auto. split; auto. split; [eapply closed_real; eauto|].
       exists n'. split; auto. rewrite S6. unfold nm_len. rewrite (name_eq_length _ _ _ S5). reflexivity.
     + intros pr [E|[E|E]]; try discriminate. auto.
+    + eapply sdec_narrow; [apply Hi|exact Hqd|]. intros s [K _]. exact K.
   - split; [exact Hqa|]. split; intros pr E; discriminate.
   - apply (closed_equiv _ _ _ _ _ _ Eqv). exact Hqc.
   - apply (decodable_sub _ _ (Lq L (w_rr_start w))); [intros s Hs; apply Eqv; exact Hs|exact Hqd].
@@ -682,7 +691,7 @@ Qed.
 
 Lemma NInv_set_avail w h L a : NInv w h L -> w_cursor w <= a -> a <= length (w_buf w) ->
   NInv (set_avail w a) h L.
-Proof. intros [[N1 N2] ? ? ? ? ? ?] H1 H2. constructor; auto. split; simpl; auto. Qed.
+Proof. intros [[N1 N2] ? ? ? ? ? ? ?] H1 H2. constructor; auto. split; simpl; auto. Qed.
 
 Lemma NInv_clear_tsig w h L : NInv w h L -> NInv (set_tsig_f w None) h L.
 Proof. intros []. constructor; auto. Qed.
@@ -879,6 +888,7 @@ Proof.
     + intros s [].
     + repeat split; exact I.
     + intros pr [E|[E|E]]; discriminate.
+    + intros s [].
   - repeat split; intros pr E; discriminate.
   - intros s [[] _].
   - intros s [[] _].
@@ -987,7 +997,7 @@ Proof.
   destruct (write_unhinted_name n (d_w d)) as [[pr w1]|[e w1]|]; simpl in P1; cbn [bind] in E.
   3:{ contradiction. }
   2:{ destruct P1 as [_ [_ [_ K]]]. lia. }
-  destruct P1 as [W [Hsz [_ [L1 [G1 [Hi1 HpL]]]]]]. pose proof W as [X _].
+  destruct P1 as [W [Hsz [_ [L1 [G1 [Hi1 [HpL HT1]]]]]]]. pose proof W as [X _].
   set (w1' := if (w_qd w1 =? 0)%N then set_qname w1 pr else w1) in *.
   assert (E1 : w_cursor w1' = w_cursor w1 /\ w_avail w1' = w_avail w1)
     by (unfold w1'; destruct (w_qd w1 =? 0)%N; auto).
@@ -1018,7 +1028,8 @@ Theorem hinted_into_label_starts hl h n w L : NInv w hl L -> wf_name n -> hint_c
   hint_in h w L ->
   match write_hinted_name h n w with
   | Ok (pr, w') => emittedL n (w_buf w') (w_cursor w) (w_cursor w') L /\
-                   exists L', grew w w' L L' /\ NInv w' hl L' /\ (forall p, pr = Some p -> L' (p_ptr p))
+                   exists L', grew w w' L L' /\ NInv w' hl L' /\ (forall p, pr = Some p -> L' (p_ptr p)) /\
+                              emittedT n (w_buf w') (w_cursor w) (w_cursor w') L L'
   | Err (e, _) => e = Truncation
   | Panic => False
   end.
@@ -1031,7 +1042,8 @@ Qed.
 Theorem unhinted_into_label_starts hl n w L : NInv w hl L -> wf_name n ->
   match write_unhinted_name n w with
   | Ok (pr, w') => emittedL n (w_buf w') (w_cursor w) (w_cursor w') L /\
-                   exists L', grew w w' L L' /\ NInv w' hl L' /\ (forall p, pr = Some p -> L' (p_ptr p))
+                   exists L', grew w w' L L' /\ NInv w' hl L' /\ (forall p, pr = Some p -> L' (p_ptr p)) /\
+                              emittedT n (w_buf w') (w_cursor w) (w_cursor w') L L'
   | Err (e, _) => e = Truncation
   | Panic => False
   end.
